@@ -31,6 +31,13 @@ Example sound_fixed_nonvacuous :
   some_protected_granted (run cfg_fixed3 proc_init demo_trace) = true.
 Proof. vm_compute. split; reflexivity. Qed.
 
+(* ---- the hypotheses of C05_no_error_flag_4handlers are satisfiable *)
+Example no_error_nonvacuous :
+  valid_run cfg_fixed3 proc_init (demo_trace ++ [OReg 2; OUnreg 2; OUdpOn 0; OUdp 0 [4%N]; OSetFile 0 []]) -> True.
+Proof. trivial. Qed.
+Example no_error_valid : valid_run cfg_fixed3 proc_init (demo_trace ++ [OReg 2; OUnreg 2; OUdpOn 0; OUdp 0 [4%N]]).
+Proof. vm_compute. repeat split; repeat constructor. Qed.
+
 (* ---- the code before the fixes (regression witnesses) *)
 (* section 7 F1a: X (connection 0) of a protected screen is in RFB_SECURITY_TYPE, a connection to a
    password-less screen rewrites the process-global list to {None}, X chooses type 1 *)
@@ -162,6 +169,21 @@ Lemma tight_negotiation :
   map c_st (p_conns (run tight_cfg proc_init (tight_trace [0;0;0;2]%N []))) = [StClosed].
 Proof. vm_compute. repeat split. Qed.
 
+(* ---- UDP input channel at /repo HEAD (cfgU = no notes/fix_C05_4.diff): a KeyEvent datagram from a peer
+   that never spoke to the server is handed to the application of a password-protected screen *)
+Definition udp_key : list N := [4; 1; 0; 0; 0; 0; 0; 97]%N.
+Definition udp_trace : list op := [OScreen demo_screen; OUdpOn 0; OUdp 0 udp_key].
+Lemma udp_input_refuted :
+  exists ops s scr, let p := run (cfgU true default_ext false) proc_init ops in
+    In s (p_input p) /\ nth_error (p_screens p) s = Some scr /\ has_password scr = true /\ p_conns p = [].
+Proof.
+  exists udp_trace, 0%nat, demo_screen. vm_compute. repeat split. left. reflexivity.
+Qed.
+Example udp_gated_nonvacuous :
+  p_input (run cfg_fixed3 proc_init udp_trace) = [] /\
+  p_input (run cfg_fixed3 proc_init [OScreen open_screen; OUdpOn 0; OUdp 0 udp_key]) = [0%nat].
+Proof. vm_compute. split; reflexivity. Qed.
+
 (* ---- view-only: authPasswdFirstViewOnly at every position of a 3-password list, each password *)
 Definition vo_screen (fvo : Z) : screen := mkScreen (PwList [[120%N]; demo_pw; demo_pw2] fvo) 4 3 [].
 Definition vo_run (fvo : Z) (pw : list N) : list (cstate * bool) :=
@@ -209,7 +231,7 @@ Example versions_nonvacuous :
 Proof. vm_compute. repeat split. Qed.
 
 Example versions_failure_nonvacuous :
-  let c := mkConn 0 false StAuth 8 demo_chal demo_chal None false [] [] [] in
+  let c := mkConn 0 false StAuth 8 demo_chal demo_chal None false [] [] [] [] in
   c_st c = StAuth /\ length (c_chal c) = 16%nat /\
   (forall pw, In pw (screen_passwords demo_screen) -> vnc_encrypt pw (c_chal c) <> Some demo_chal).
 Proof.
